@@ -65,7 +65,7 @@ def graphs(draw, max_nodes=10, with_assets=True, max_ports=3, apply_only=False):
     def new_group(kind, nin, nout):
         gid = len(groups)
         twin = None
-        if groups and draw(st.integers(0, 9)) == 0:  # repeated builder: equal name/hp as an earlier group of same shape
+        if groups and draw(st.integers(0, 3 if apply_only else 9)) == 0:  # repeated builder: equal name/hp as an earlier group of same shape
             cands = [g for g in groups if (g['kind'], g['nin'], g['nout']) == (kind, nin, nout)]
             if cands:
                 twin = cands[draw(st.integers(0, len(cands) - 1))]
@@ -75,6 +75,9 @@ def graphs(draw, max_nodes=10, with_assets=True, max_ports=3, apply_only=False):
             groups.append({'kind': kind, 'nin': nin, 'nout': nout, 'hp': dict(twin['hp']), 'name': twin['name']})
             groups[-1]['twin_of'] = groups.index(twin)
             groups[-1]['opaque'] = gid if draw(st.booleans()) else twin['opaque']
+            # equal content: the two worker groups may even be made from the very same builder object (an operator
+            # composed repeatedly reuses its builder)
+            groups[-1]['same_builder'] = groups[-1]['opaque'] == twin['opaque'] and draw(st.booleans())
         else:
             groups.append({'kind': kind, 'nin': nin, 'nout': nout, 'hp': draw(hp_st), 'name': f'g{gid}', 'opaque': gid})
         return gid
@@ -307,6 +310,9 @@ class Built:
         self.builders = []
         for g in groups:
             cls = actors.St if g['kind'] == 'st' else actors.Fn
+            if g.get('same_builder'):
+                self.builders.append(self.builders[g['twin_of']])
+                continue
             self.builders.append(cls.builder(g['name'], g['nin'], g['nout'], **group_hp(g)))
         self.workers = []
         first = {}
